@@ -330,6 +330,36 @@ Section ServeFacts.
   Qed.
 End ServeFacts.
 
+(* ---------- the patch on the wire ---------- *)
+Section WireFacts.
+  Variable text : Type.
+  Variable encode : list jop -> text.
+  Variable decode_std : text -> option (list jop).
+  Hypothesis wire_law : forall ops, decode_std (encode ops) = Some ops.
+
+  Lemma wire_roundtrip uid outs ws ops :
+    received_patch encode decode_std (build_response uid outs ws ops) = Some ops.
+  Proof.
+    unfold received_patch, wire_patch. rewrite patch_spec. destruct ops; [reflexivity|apply wire_law].
+  Qed.
+
+  (* what the API server decodes from the response is exactly what as_json_patch computed *)
+  Lemma serve_patch_received from_diff uid c hs run patch fns body r :
+    serve from_diff uid c hs run patch fns body = Ok r ->
+    exists ops, as_json_patch from_diff patch fns body = Ok ops /\
+                received_patch encode decode_std r = Some ops.
+  Proof.
+    intro Hs. apply serve_ok_inv in Hs. destruct Hs as (ops & Ha & ->).
+    exists ops. split; [exact Ha|apply wire_roundtrip].
+  Qed.
+End WireFacts.
+
+(* the law has a model (the identity wire) *)
+Example wire_law_satisfiable :
+  exists (text : Type) (encode : list jop -> text) (decode_std : text -> option (list jop)),
+    forall ops, decode_std (encode ops) = Some ops.
+Proof. exists (list jop), (fun x => x), (@Some _). reflexivity. Qed.
+
 (* two selected handlers with one id: the denial of the first is lost *)
 Definition dup_handlers : list whandler :=
   [{| h_id := "check"; h_fn := 0; h_mutating := false; h_ops := None; h_sub := None; h_extra := true |};
